@@ -8,7 +8,8 @@ Decided statically, as necessary conditions of memory safety:
   R2  kernel entry: f32 kernels only through length-asserting wrappers or the metric kernel; every slice that reaches the metric
       kernel is a stored vector or a query/embedding whose length was compared with the dimension on the way in.
   R3  closed inventory of unsafe operations per function.
-Not decided: loop arithmetic inside the SIMD kernels, record-layout arithmetic of PackedLevel0.
+  R4  every vector load / store of the kernels proved in bounds (linear bounds over loop ranges).
+Not decided: record-layout arithmetic of PackedLevel0.
 """
 import re
 
@@ -22,8 +23,8 @@ MANIFEST = {
             'parameter, heap, container and return summaries, each discharged by an obligation on all callers / all pushes; an unrecognised '
             'idiom fails closed), neighbour indexes range over 0..count(id), the visited bitset is prepared for the same n; the f32 kernels are '
             'reachable only through the length-asserting wrappers of simd.rs and the metric kernel, whose slice arguments are stored vectors or '
-            'queries compared with the dimension on every call chain; the per-function table of unsafe operations is closed. Arithmetic inside '
-            'the kernels (tails, strides) and PackedLevel0 layout are not decided.',
+            'queries compared with the dimension on every call chain; the per-function table of unsafe operations is closed; every vector load / store of the SIMD kernels is proved inside its slice '
+            '(off + lanes ≤ len from loop ranges and floor divisions, linear bounds). PackedLevel0 record-layout arithmetic is not decided.',
     'design_ref': 'DESIGN.md §4.17',
     'note': 'Trusted base: rustc MIR, guard normal forms (casts transparent), jump threading of || chains. Use-after-free is excluded by '
             'ownership (borrow checker), not by this check.',
@@ -480,8 +481,73 @@ def r3(ctx, prog):
     ctx.floor('C17.R3', 'kernel entry shims', n_shim, 12, '4 kernels x 3 ISA levels')
 
 
+LANES = {'_mm_loadu_ps': 4, '_mm_storeu_ps': 4, '_mm256_loadu_ps': 8, '_mm256_storeu_ps': 8, '_mm512_loadu_ps': 16, '_mm512_storeu_ps': 16,
+         'vld1q_f32': 4, 'vst1q_f32': 4}
+
+
+def r4(ctx, prog):
+    ctx.rule('C17.R4', 'vector memory accesses of the kernels stay inside the slice: for every load / store intrinsic that takes a raw pointer, the pointer is '
+                       'slice.as_ptr().add(off) of a kernel parameter and  off + lanes ≤ len  is proved for every len from the loop ranges (lo..hi, step_by) and '
+                       'the floor divisions that define them (linear bounds, kvstatic/bounds.py); stores go to a local array of at least `lanes` elements; any '
+                       'other pointer-taking intrinsic is unclassified and fails')
+    from kvstatic import bounds
+    n_sites = 0
+    n_fn = 0
+    for b in sorted(prog.bodies.values(), key=lambda x: x.id):
+        if b.crate != 'kyrodb_engine' or '::simd::' not in b.id or b.kind == 'Promoted':
+            continue
+        of = flow.Origin(b)
+        sites = []
+        for c in b.calls:
+            if not c.callee or c.exp:
+                continue
+            ptrs = [i for i, a in enumerate(c.args) if a.get('k') in ('cp', 'mv') and not a['pl'].get('p') and b.locals[a['pl']['l']].startswith('*')]
+            if ptrs and not re.search(r'(const_ptr|mut_ptr|ptr)::\w+$', flow.short(c.callee)):
+                sites.append((c, ptrs))
+        if not sites:
+            continue
+        n_fn += 1
+        has_len = any('len' in b.varnames.get(l, []) for l in range(1, b.argc + 1))
+        for c, ptrs in sites:
+            n_sites += 1
+            leaf = c.callee.split('::')[-1]
+            k = _count(ctx, 'C17.R4', '%s | %s #' % (b.short, leaf))
+            W = LANES.get(leaf)
+            if W is None or len(ptrs) != 1:
+                ctx.inst('C17.R4', b.short, '%s #%d is a classified memory intrinsic' % (leaf, k), False, 'intrinsic %s takes a raw pointer and is not in the lane table at %s' % (leaf, c.loc))
+                continue
+            e = of.of_operand(c.args[ptrs[0]])
+            while e[0] == 'cast':
+                e = e[1]
+            if 'storeu' in leaf or leaf.startswith('vst'):
+                arrs = [int(m.group(1)) for l, ns in b.varnames.items() for m in [re.match(r'^\[f32; (\d+)\]$', b.locals[l])] if m]
+                base_ok = e[0] == 'call' and flow.short(e[1]).endswith('as_mut_ptr') and bool(arrs)
+                ctx.inst('C17.R4', b.short, '%s #%d writes a local array of ≥ %d lanes' % (leaf, k, W), base_ok and min(arrs) >= W, 'target %s; local arrays %s' % (flow.render(e)[:40], arrs))
+                continue
+            if not (e[0] == 'call' and flow.short(e[1]).endswith('ptr::add') and len(e[2]) == 2 and e[2][0][0] == 'call' and flow.short(e[2][0][1]) == 'slice::as_ptr' and e[2][0][2][0][0] == 'arg'):
+                ctx.inst('C17.R4', b.short, '%s #%d reads slice.as_ptr().add(off) of a parameter' % (leaf, k), False, 'pointer is %s' % flow.render(e)[:100])
+                continue
+            sl = e[2][0][2][0]
+            off = e[2][1]
+            if has_len:
+                is_len = lambda x: x[0] == 'arg' and x[2] == 'len'
+                ln = 'len (= a.len() = b.len(): entry shims R3, wrappers R2)'
+            else:
+                is_len = lambda x, sl=sl: (x[0] == 'call' and flow.short(x[1]) == 'slice::len' and x[2] and x[2][0] == sl) or (x[0] == 'un' and x[1] == 'PtrMetadata' and x[2] == sl)
+                ln = '%s.len()' % sl[2]
+            ok, why = bounds.Bounds(is_len).access_ok(off, W)
+            ctx.inst('C17.R4', b.short, '%s #%d stays inside the slice' % (leaf, k), ok, '%s[off .. off+%d] with L = %s: %s; off = %s' % (sl[2], W, ln, why, flow.render(off)[:110]))
+    # the `len` the bounds are proved against is a.len(): the kernels are entered only through their entry shims (R3 checks what the shims pass)
+    for b in sorted(prog.bodies.values(), key=lambda x: x.id):
+        if b.crate == 'kyrodb_engine' and '::simd::' in b.id and b.is_unsafe and b.kind in ('Fn', 'AssocFn'):
+            cs = sorted(set(c.body.short.split('::{')[0] for c in prog.callers_of(b.id)))
+            ctx.inst('C17.R4', b.short, 'kernel entered only through its entry shim', bool(cs) and all(re.match(r'^simd::\w+_entry$', x) for x in cs), 'callers: %s' % cs)
+    ctx.floor('C17.R4', 'vector load / store sites', n_sites, 95, '9 x86 kernels + 3 single-slice kernels, counted on the pinned tree')
+    ctx.floor('C17.R4', 'kernels with vector memory accesses', n_fn, 12, '4 kernels x 3 ISA levels')
+
+
 def run(ctx, prog):
-    ctx.not_decided = ['loop arithmetic inside the SIMD kernels (tails, strides)', 'record-layout arithmetic of PackedLevel0 (record_ptr / vector offsets)',
+    ctx.not_decided = ['value arithmetic of the kernels other than the bounds of their vector loads (reductions, accumulators)', 'record-layout arithmetic of PackedLevel0 (record_ptr / vector offsets)',
                        'use-after-free (excluded by ownership, not by this check)', 'ffi-bench trusted entry points (thorough tier, named exception)']
     ctx.assumptions = list(ctx.assumptions) + [
         'level0.len() == dense_to_origin.len() outside connect_with_layer_neighbors_with_scratch (pairing checked structurally), so a checked accessor returning normally validates its id',
@@ -490,4 +556,5 @@ def run(ctx, prog):
     r1(ctx, prog)
     r2(ctx, prog)
     r3(ctx, prog)
+    r4(ctx, prog)
     ctx.stat('functions_analysed', len(set(i['key'].split(' | ')[1] for i in ctx.instances)))
